@@ -310,7 +310,7 @@ func draw(t *rapid.T) Case {
 	case 3:
 		cs.Plain = rapid.SliceOfN(rapid.Byte(), 16, 300).Draw(t, "bin")
 	case 4:
-		n := rapid.SampledFrom([]int{255, 256, 1024, h.N(1024, 4096)}).Draw(t, "biglen")
+		n := rapid.SampledFrom([]int{215, 216, 255, 256, 1024, 4055, 4056, 4095, 4096, h.N(1024, 65536), h.N(4097, 65496)}).Draw(t, "biglen")
 		seed := rapid.Byte().Draw(t, "bigseed")
 		cs.Plain = make([]byte, n)
 		for i := range cs.Plain {
